@@ -9,8 +9,8 @@ static const double PI2 = 6.283185307179586476925;
 
 struct Cen { double q, p, w; };
 
-static Cen centroid(const PhaseSpace& ps, uint32_t n) {
-    const float* d = ps.getData();
+static Cen centroid(const PhaseSpace& ps, uint32_t n, uint32_t b = 0) {
+    const float* d = ps.getData() + (size_t)b * n * n;
     double s = 0, sq = 0, sp = 0;
     for (uint32_t x = 0; x < n; x++) {
         double q = ps.q(x), row = 0, rp = 0;
@@ -21,8 +21,8 @@ static Cen centroid(const PhaseSpace& ps, uint32_t n) {
 }
 
 // fraction of |charge| within three cells of the border: "the distribution stays inside the grid"
-static double border_fraction(const PhaseSpace& ps, uint32_t n) {
-    const float* d = ps.getData();
+static double border_fraction(const PhaseSpace& ps, uint32_t n, uint32_t b = 0) {
+    const float* d = ps.getData() + (size_t)b * n * n;
     double tot = 0, edge = 0;
     for (uint32_t x = 0; x < n; x++) for (uint32_t y = 0; y < n; y++) {
         double v = std::fabs((double)d[(size_t)x * n + y]); tot += v;
@@ -44,23 +44,27 @@ int main(int argc, char** argv) {
         const double pq = 12, d = pq / (n - 1);
         double qc = -shiftx * d, pc = -shifty * d;
         double qscale = r.logu(1e-3, 3e-3), pscale = r.logu(2e5, 2e6), fRF = r.logu(1e8, 5e8), V = r.logu(2e5, 4e6);   // k_RF*sigma <= 0.03: 'small amplitudes'
-        std::ostringstream ds; ds << (sinus ? "sinus" : "linear") << " n=" << n << " it=" << it << " steps=" << steps << " shift=(" << shiftx << "," << shifty << ")";
+        // a quarter of the cases are trains of 2-3 bunches, each with its own start: "any distribution" includes every bunch of a train
+        uint32_t nb = (c % 4 == 3) ? (uint32_t)r.range(2, 3) : 1;
+        std::ostringstream ds; ds << (sinus ? "sinus" : "linear") << " n=" << n << " nb=" << nb << " it=" << it << " steps=" << steps << " shift=(" << shiftx << "," << shifty << ")";
         M.begin_case(c, ds.str());
-        vh::set_grid(n, 1);
+        vh::set_grid(n, nb);
         auto mk = [&]() { return std::make_shared<PhaseSpace>((meshaxis_t)(qc - pq / 2), (meshaxis_t)(qc + pq / 2), qscale, (meshaxis_t)(pc - pq / 2), (meshaxis_t)(pc + pq / 2), pscale,
-                                                              nullptr, 1e-10, 1e-3, std::vector<integral_t>{1.0f}, 1.0, nullptr); };
+                                                              nullptr, 1e-10, 1e-3, std::vector<integral_t>(nb, 1.0f / nb), 1.0, nullptr); };
         auto A = mk(), B = mk();
         // start: one or two blobs, centroid radius up to 2 sigma, any phase; everything stays inside the grid (|q|,|p| < 6)
-        int nblob = r.chance(0.5) ? 1 : 2;
-        float* da = A->getData();
-        std::fill(da, da + (size_t)n * n, 0.0f);
-        for (int b = 0; b < nblob; b++) {
-            double rad = r.uni(0.2, it == 2 ? 1.0 : 2.0), ph = r.uni(0, PI2), sg = r.uni(0.4, 0.6), amp = r.uni(0.3, 1);
-            double mq = rad * std::cos(ph), mp = rad * std::sin(ph);
-            for (uint32_t x = 0; x < n; x++) for (uint32_t y = 0; y < n; y++) {
-                double q = A->q(x), p = A->p(y);
-                double v = amp * std::exp(-0.5 * ((q - mq) * (q - mq) + (p - mp) * (p - mp)) / (sg * sg));
-                if ((q - mq) * (q - mq) + (p - mp) * (p - mp) < 16 * sg * sg) da[(size_t)x * n + y] += (float)v;   // compact support: stays inside while rotating
+        std::fill(A->getData(), A->getData() + (size_t)nb * n * n, 0.0f);
+        for (uint32_t bn = 0; bn < nb; bn++) {
+            int nblob = r.chance(0.5) ? 1 : 2;
+            float* da = A->getData() + (size_t)bn * n * n;
+            for (int b = 0; b < nblob; b++) {
+                double rad = r.uni(0.2, it == 2 ? 1.0 : 2.0), ph = r.uni(0, PI2), sg = r.uni(0.4, 0.6), amp = r.uni(0.3, 1);
+                double mq = rad * std::cos(ph), mp = rad * std::sin(ph);
+                for (uint32_t x = 0; x < n; x++) for (uint32_t y = 0; y < n; y++) {
+                    double q = A->q(x), p = A->p(y);
+                    double v = amp * std::exp(-0.5 * ((q - mq) * (q - mq) + (p - mp) * (p - mp)) / (sg * sg));
+                    if ((q - mq) * (q - mq) + (p - mp) * (p - mp) < 16 * sg * sg) da[(size_t)x * n + y] += (float)v;   // compact support: stays inside while rotating
+                }
             }
         }
         std::unique_ptr<RFKickMap> rf;
@@ -75,39 +79,51 @@ int main(int argc, char** argv) {
         }
         std::vector<meshaxis_t> slip{(meshaxis_t)a};
         DriftMap drift(B, A, slip, (meshaxis_t)1.3e9, (SourceMap::InterpolationType)it, false, nullptr);
-        Cen c0 = centroid(*A, n);
+        std::vector<Cen> c0v(nb); std::vector<double> mqv(nb), mpv(nb); std::vector<char> insidev(nb, 1), stopv(nb, 0);
+        for (uint32_t bn = 0; bn < nb; bn++) { c0v[bn] = centroid(*A, n, bn); mqv[bn] = c0v[bn].q; mpv[bn] = c0v[bn].p; }
+        Cen c0 = c0v[0];
         double r0 = std::hypot(c0.q, c0.p);
-        double mq = c0.q, mp = c0.p;      // exact matrix product
         double worst_tight = 0, worst_rot = 0, af = (double)(float)a;
-        bool stop = false, inside = true;
+        bool stop = false;
         for (uint32_t k = 1; k <= steps && !stop; k++) {
             rf->apply();
             drift.apply();
-            mp = mp + t_eff * mq;           // kick: p += tan(a) q
-            mq = mq - af * mp;              // drift: q -= a p
-            Cen ck = centroid(*A, n);
-            double e1 = std::hypot(ck.q - mq, ck.p - mp);
-            double ex = r0 * std::cos(std::atan2(c0.p, c0.q) + k * a), ey = r0 * std::sin(std::atan2(c0.p, c0.q) + k * a);
-            double e2 = std::hypot(ck.q - ex, ck.p - ey);
-            worst_tight = std::max(worst_tight, e1); worst_rot = std::max(worst_rot, e2);
             M.ev("steps_observed");
-            double sin_allow = sinus ? std::max(2e-3, nonlin) * r0 * (1 + k * a) : 0;
-            double tol1 = sin_allow + 2e-5 * (1 + r0) * (1 + 0.02 * k);
-            double tol2 = 2.0 * a * r0 + 2e-4 + sin_allow;
-            if (!inside && std::fabs(ck.w / c0.w - 1) > 1e-3) { M.ev("charge_left_grid"); stop = true; break; }   // diffused over the border: not judged
-            if (border_fraction(*A, n) > 1e-7) inside = false;    // once charge has reached the border region the case is no longer "inside the grid"
-            bool lossless = inside;
-            if (!lossless) M.ev("steps_with_charge_loss_not_judged");
-            if (lossless && !M.within(std::string("centroid_vs_matrix_product_over_tol.") + (sinus ? "sinus" : "linear"), e1 / tol1, 1.0)) {
-                vh::J dj; dj.s("case", ds.str()).i("step", k).n("q", ck.q).n("p", ck.p).n("want_q", mq).n("want_p", mp).n("c0_q", c0.q).n("c0_p", c0.p);
-                M.violation(std::string("C03:track:") + (sinus ? "sinus" : "linear"), "centre of charge leaves the exact kick-drift orbit", dj.str());
-                stop = true;
-            } else if (lossless && !M.within(std::string("centroid_vs_rotation_over_bound.") + (sinus ? "sinus" : "linear"), e2 / tol2, 1.0)) {
-                vh::J dj; dj.s("case", ds.str()).i("step", k).n("q", ck.q).n("p", ck.p).n("want_q", ex).n("want_p", ey).n("bound", tol2);
-                M.violation(std::string("C03:rotation:") + (sinus ? "sinus" : "linear"), "centre of charge deviates from the rotation by k*2pi/steps by more than the splitting error", dj.str());
-                stop = true;
+            bool all_stopped = true;
+            for (uint32_t bn = 0; bn < nb; bn++) {
+                if (stopv[bn]) continue;
+                const Cen& cb = c0v[bn];
+                double rb = std::hypot(cb.q, cb.p);
+                double& mq = mqv[bn]; double& mp = mpv[bn];
+                mp = mp + t_eff * mq;           // kick: p += tan(a) q
+                mq = mq - af * mp;              // drift: q -= a p
+                Cen ck = centroid(*A, n, bn);
+                double e1 = std::hypot(ck.q - mq, ck.p - mp);
+                double ex = rb * std::cos(std::atan2(cb.p, cb.q) + k * a), ey = rb * std::sin(std::atan2(cb.p, cb.q) + k * a);
+                double e2 = std::hypot(ck.q - ex, ck.p - ey);
+                worst_tight = std::max(worst_tight, e1); worst_rot = std::max(worst_rot, e2);
+                if (nb > 1) M.ev("train_bunch_steps_observed");
+                double sin_allow = sinus ? std::max(2e-3, nonlin) * rb * (1 + k * a) : 0;
+                double tol1 = sin_allow + 2e-5 * (1 + rb) * (1 + 0.02 * k);
+                double tol2 = 2.0 * a * rb + 2e-4 + sin_allow;
+                if (!insidev[bn] && std::fabs(ck.w / cb.w - 1) > 1e-3) { M.ev("charge_left_grid"); stopv[bn] = 1; continue; }   // diffused over the border: not judged
+                if (border_fraction(*A, n, bn) > 1e-7) insidev[bn] = 0;    // once charge has reached the border region the case is no longer "inside the grid"
+                bool lossless = insidev[bn];
+                if (!lossless) M.ev("steps_with_charge_loss_not_judged");
+                std::string bk = (bn > 0) ? ":bunch>0" : "";
+                if (lossless && !M.within(std::string("centroid_vs_matrix_product_over_tol.") + (sinus ? "sinus" : "linear"), e1 / tol1, 1.0)) {
+                    vh::J dj; dj.s("case", ds.str()).i("step", k).i("bunch", bn).n("q", ck.q).n("p", ck.p).n("want_q", mq).n("want_p", mp).n("c0_q", cb.q).n("c0_p", cb.p);
+                    M.violation(std::string("C03:track:") + (sinus ? "sinus" : "linear") + bk, "centre of charge leaves the exact kick-drift orbit", dj.str());
+                    stopv[bn] = 1;
+                } else if (lossless && !M.within(std::string("centroid_vs_rotation_over_bound.") + (sinus ? "sinus" : "linear"), e2 / tol2, 1.0)) {
+                    vh::J dj; dj.s("case", ds.str()).i("step", k).i("bunch", bn).n("q", ck.q).n("p", ck.p).n("want_q", ex).n("want_p", ey).n("bound", tol2);
+                    M.violation(std::string("C03:rotation:") + (sinus ? "sinus" : "linear") + bk, "centre of charge deviates from the rotation by k*2pi/steps by more than the splitting error", dj.str());
+                    stopv[bn] = 1;
+                }
+                if (!stopv[bn]) all_stopped = false;
+                if (k == steps && !stopv[bn]) M.ev(bn == 0 ? "periods_closed" : "periods_closed_bunch>0");
             }
-            if (k == steps && !stop) M.ev("periods_closed");
+            if (all_stopped) stop = true;
         }
         M.sig(vh::hmix(vh::hmix(n * 8 + it, steps), (uint64_t)(int64_t)(c0.q * 1e9) ^ (uint64_t)(int64_t)(c0.p * 1e7)));
         { vh::J j; j.s("case", ds.str()).n("c0_q", c0.q).n("c0_p", c0.p).n("worst_vs_matrix", worst_tight).n("worst_vs_rotation", worst_rot).n("a_r0", a * r0); M.sample(j.str()); }
